@@ -120,6 +120,21 @@ ROUND5 = {
     "C20": " A keyspace name passes local validation only if it is 1..=48 characters of [A-Za-z0-9_].",
 }
 
+# clauses added by the sixth seed round
+ROUND6 = {
+    "C01": " A value that is present is never bound as null / unset (only Option, MaybeUnset, Unset and the null-padding of short tuples / UDTs write an absent cell).",
+    "C03": " Every bound partition-key value that is present is recorded for the token computation, whatever its length.",
+    "C05": " No selection predicate accepts a node on which its own host-filter / liveness tests all came out false.",
+    "C07": " The plan of every page keeps all targets of the load-balancing plan other than the coordinator tried first.",
+    "C08": " A reserved (negative) stream id from the header never reaches the response-handler map, whose bitmap is indexed with it.",
+    "C09": " A statement's explicit `no serial consistency` is not replaced by the execution profile's level.",
+    "C12": " Every (replica, shard) pair a replica set hands out pairs the node with its own shard.",
+    "C14": " Every UNPREPARED answer (not only the first of a request) leads to a re-preparation or to the id-missing error.",
+    "C16": " A NULL becomes Default::default() only for fields marked default_when_null.",
+    "C19": " A refresh request is answered only after the refreshed cluster state was published.",
+    "C20": " A keyspace name taken from the server's SET_KEYSPACE answer is spread case-sensitively.",
+}
+
 NOT_APPLICABLE = {
 }
 
@@ -138,7 +153,7 @@ def main():
                 "evidence_file": "/verif/evidence/%s.json" % pid,
                 "replay_cmd_template": "./check explain {path}",
                 "engine": "scyllalint",
-                "level_claimed": {"category": "other", "text": text + ROUND4.get(pid, "") + ROUND5.get(pid, ""), "design_ref": ref},
+                "level_claimed": {"category": "other", "text": text + ROUND4.get(pid, "") + ROUND5.get(pid, "") + ROUND6.get(pid, ""), "design_ref": ref},
                 "level_note": note,
                 "technique": tech,
             })
